@@ -100,7 +100,7 @@ def run_native(src, timeout=60):
         f.write(src)
     r = subprocess.run(['g++', '-std=c++17', '-O1', '-g', '-DNDEBUG', '-fsanitize=address,undefined',
                         '-fno-sanitize-recover=undefined', '-I' + os.path.join(astdb.REPO, 'include'),
-                        '-I' + astdb.GEN, '-I' + os.path.join(astdb.REPO, 'lib'), cpp, lib, '-o', exe],
+                        '-I' + astdb.GEN, '-I' + os.path.join(astdb.REPO, 'lib'), cpp, lib, '-pthread', '-o', exe],
                        capture_output=True, text=True)
     if r.returncode != 0:
         return False, 'adapter does not compile: ' + r.stderr[-1500:]
